@@ -388,6 +388,10 @@ func (c *HostClient) Do(ctx context.Context, req *protocol.Request, resp *protoc
 		isDefaultRetryFunc = false
 	}
 
+	// The first attempt consumes and closes a body stream, so IsBodyStream must be asked now:
+	// afterwards the request looks rewindable and would be re-sent with an empty body.
+	hasBodyStream := req.IsBodyStream()
+
 	atomic.AddInt32(&c.pendingRequests, 1)
 	req.Options().StartRequest()
 	for {
@@ -417,7 +421,7 @@ func (c *HostClient) Do(ctx context.Context, req *protocol.Request, resp *protoc
 		// keep-alive connection on timeout.
 		//
 		// Apache and nginx usually do this.
-		if canIdempotentRetry && client.DefaultRetryIf(req, resp, err) && errors.Is(err, errs.ErrBadPoolConn) {
+		if canIdempotentRetry && !hasBodyStream && client.DefaultRetryIf(req, resp, err) && errors.Is(err, errs.ErrBadPoolConn) {
 			connAttempts++
 			continue
 		}
